@@ -86,7 +86,9 @@ static rc::Gen<Case> genCase() {
         Motion m;
         m.q = Quat::from(*uniform(-1, 1), *uniform(-1, 1), *uniform(-1, 1), *uniform(-1, 1));
         m.scale = L;
-        const double mag = *rc::gen::element(0.0, 0.0, 1.0, 10.0, 100.0, 1000.0);
+        // "every position relative to the coordinate origin": up to 1e10 triangle sizes out (a micrometre triangle in a tissue placed metres
+        // to kilometres from the origin); the closest-point clause below is judged relative to vertex A, independently of that distance
+        const double mag = *rc::gen::element(0.0, 0.0, 1.0, 10.0, 100.0, 1000.0, 1e5, 1e7, 1e10);
         m.t = V3(*uniform(-1, 1), *uniform(-1, 1), *uniform(-1, 1)) * (mag * L);
         auto put = [&](const V3& v, double* o) {
             V3 r = m.apply(v);
@@ -162,6 +164,20 @@ static std::string eval_config(const V3& a, const V3& b, const V3& c, const V3& 
         os << tag << ": designated point at squared distance " << (double)dq2 << " but a point of the triangle is at "
            << (double)ref.d2 << " (tol " << (double)tol2 << ")";
         return os.str();
+    }
+    {
+        // the same clause without the distance to the origin in the tolerance: the point the coordinates designate is taken relative to
+        // vertex A (q = A + b2 AB + b3 AC; b1 is fixed by the sum clause above), so only the triangle's own size and the distance of the
+        // query point enter. The inputs are exact doubles and the kernel works on differences of them, whatever the placement.
+        const V3 qr = (b - a) * b2 + (c - a) * b3;  // relative to A: differences of the input doubles are exact in long double
+        const ld dqr2 = ((p - a) - qr).n2();
+        const ld Er = 32 * EPS * (size + d) + 64 * EPS * size * (size * size / (2 * ar));
+        const ld tolr = 4 * (2 * d * Er + Er * Er);
+        if (dqr2 > ref.d2 + tolr) {
+            os << tag << ": the point designated relative to vertex A is at squared distance " << (double)dqr2 << " but a point of the triangle is at "
+               << (double)ref.d2 << " (tol " << (double)tolr << ", triangle size " << (double)size << ", " << (double)(mag / size) << " sizes from the origin)";
+            return os.str();
+        }
     }
     return "";
 }
